@@ -68,5 +68,6 @@ int main(int argc, char **argv) {
   }
   if (cmd == "replay" && argc >= 3) return replayMain(argc - 2, argv + 2);
   if (cmd == "batch") return batchMain(argc - 2, argv + 2);
+  if (cmd == "genrun") return genRunMain(argc - 2, argv + 2);
   return usage();
 }
